@@ -42,7 +42,9 @@ def run(prop, tier):
     t = TIERS[tier]
     # 1. the protocol state machine, exhaustively (3 parameters, 3-point grid): strip/stitch algebra for every mask
     cfg = tlc.make_cfg(dict(N=3, G=2, EmitCases=True, EmitMod=t["emitmod"], EmitRes=sd % t["emitmod"]), invariants=FIT_INV)
-    fit = tlc.run("Fit", cfg, workers=16, timeout=3600)
+    fit = tlc.run("Fit", cfg, workers=16, timeout=3600, coverage=(tier == "thorough"))
+    if tier == "thorough":
+        tlc.require_actions(fit, ["Validate", "Shim", "Minimise", "Post"], "Fit")
     if not fit.ok:
         raise Machinery("Fit.tla invariants fail:\n" + fit.tail[-3000:])
     # 2. closed-form families with exact optima
